@@ -275,22 +275,7 @@ Definition sparse_norm (sz : Z) (l : list (Z * Z)) : list (Z * Z) :=
   | _ => l
   end.
 
-(* ---- whole-object operations *)
-Definition do_copy_stat (lg : bool) (e : entry) (s : statarg) : entry :=
-  let e := do_set_time e KA (sa_atime s) (sa_atime_ns s) in
-  let e := do_set_time e KC (sa_ctime s) (sa_ctime_ns s) in
-  let e := do_set_time e KM (sa_mtime s) (sa_mtime_ns s) in
-  let e := do_unset_time e KB in                        (* no st_birthtime on Linux *)
-  let e := do_set_dev lg e PComb (sa_dev s) in
-  let e := do_set_id e KGid (u32 (sa_gid s)) in         (* gid_t, uid_t: unsigned 32 bit *)
-  let e := do_set_id e KUid (u32 (sa_uid s)) in
-  let e := do_set_id e KIno (u64 (sa_ino s)) in         (* ino_t unsigned 64 -> la_int64_t *)
-  let e := do_set_id e KNlink (u64 (sa_nlink s)) in     (* nlink_t unsigned 64 -> unsigned int *)
-  let e := do_set_rdev lg e PComb (sa_rdev s) in
-  let e := do_set_id e KSize (sa_size s) in
-  do_set_mode e (sa_mode s).
-
-Definition step (lg : bool) (e : entry) (o : op) : entry * Z :=
+Definition step1 (lg : bool) (e : entry) (o : op) : entry * Z :=
   match o with
   | OTime k t ns => (do_set_time e k t ns, 0)
   | OUnsetTime k => (do_unset_time e k, 0)
@@ -314,8 +299,23 @@ Definition step (lg : bool) (e : entry) (o : op) : entry * Z :=
   | OSparseClear => (with_sparse e [], 0)
   | OXattrAdd n v => (with_xattrs e ((n, v) :: xattrs e), 0)
   | OXattrClear => (with_xattrs e [], 0)
-  | OCopyStat s => (do_copy_stat lg e s, 0)
+  | OCopyStat s => (e, 0)                        (* see step *)
   | OClear => (init, 0)
+  end.
+
+(* archive_entry_copy_stat is this sequence of setter calls (Linux: nanoseconds in st_?tim.tv_nsec, no
+   st_birthtime; gid_t/uid_t/mode_t are unsigned 32 bit, ino_t/nlink_t unsigned 64 bit) *)
+Definition copy_stat_ops (a : statarg) : list op :=
+  [ OTime KA (sa_atime a) (sa_atime_ns a); OTime KC (sa_ctime a) (sa_ctime_ns a);
+    OTime KM (sa_mtime a) (sa_mtime_ns a); OUnsetTime KB;
+    ODev DDev PComb (sa_dev a); OId KGid (u32 (sa_gid a)); OId KUid (u32 (sa_uid a));
+    OId KIno (u64 (sa_ino a)); OId KNlink (u64 (sa_nlink a)); ODev DRdev PComb (sa_rdev a);
+    OId KSize (sa_size a); OMode (sa_mode a) ].
+
+Definition step (lg : bool) (e : entry) (o : op) : entry * Z :=
+  match o with
+  | OCopyStat a => (fold_left (fun e o => fst (step1 lg e o)) (copy_stat_ops a) e, 0)
+  | _ => step1 lg e o
   end.
 
 (* archive_entry_clone: ae_stat, strings, ae_set, symlink type, encryption, mode (through
@@ -497,14 +497,6 @@ Definition sp_set_dev (d : Z * Z * bool) (p : devp) (v : Z) : Z * Z * bool :=
   | PMaj => (u64 v, snd (fst d), true)
   | PMin => (fst (fst d), u64 v, true)
   end.
-
-(* archive_entry_copy_stat is this sequence of setter calls (Linux: no st_birthtime) *)
-Definition copy_stat_ops (a : statarg) : list op :=
-  [ OTime KA (sa_atime a) (sa_atime_ns a); OTime KC (sa_ctime a) (sa_ctime_ns a);
-    OTime KM (sa_mtime a) (sa_mtime_ns a); OUnsetTime KB;
-    ODev DDev PComb (sa_dev a); OId KGid (u32 (sa_gid a)); OId KUid (u32 (sa_uid a));
-    OId KIno (u64 (sa_ino a)); OId KNlink (u64 (sa_nlink a)); ODev DRdev PComb (sa_rdev a);
-    OId KSize (sa_size a); OMode (sa_mode a) ].
 
 Definition sp_step1 (s : spec) (o : op) : spec * Z :=
   match o with
